@@ -54,7 +54,12 @@ func checkSchedule(st *Stats, c *vcase.Case) string {
 	if ans.PrepareErr != "" {
 		return "generated program rejected by Prepare (generator soundness): " + short(ans.PrepareErr, 400)
 	}
-	if owner, _ := anomaly(ans); owner != "" {
+	if owner, detail := anomaly(ans); owner != "" {
+		if owner == "C01" && ans.HangBlocked && len(c.Plan) > 0 {
+			// a delay cannot make a correct program block for ever: the run under this plan never ends
+			st.Record(c, true, c.Labels)
+			return "the run did not return under the delay plan (all engine goroutines blocked: " + short(detail, 200) + "); case " + c.Profile + "; delays: " + planString(c.Plan)
+		}
 		st.ForeignAnomaly(owner, c)
 		return ""
 	}
@@ -103,8 +108,10 @@ func TestC09(t *testing.T) {
 	st.mu.Unlock()
 	shard, shards := envInt("VERIF_SHARD", 0), envInt("VERIF_SHARDS", 1)
 	seed := os.Getenv("VERIF_SEED")
-	sample := 4 // quick: a seed-chosen quarter of the sites
-	if tier() == "thorough" {
+	// every site in both tiers (the whole sweep takes under a minute); VERIF_C09_SAMPLE=n visits a
+	// VERIF_SEED-chosen n-th of the sites instead
+	sample := envInt("VERIF_C09_SAMPLE", 1)
+	if sample < 1 {
 		sample = 1
 	}
 	pairs, total := 0, 0
